@@ -162,6 +162,12 @@ def corpus(tier, seed):
     for nm, lit in [('lparen', '('), ('plus', '+'), ('star', '*'), ('dot', '.')]:
         add([('start', ('cat', [('opt', ('t', lit)), ('opt', ('n', nm))])), (nm, b)], 'name-clash')
         add([('start', ('cat', [('star', ('n', nm)), ('star', ('t', lit))])), (nm, ('cat', [a, a]))], 'name-clash')
+    # a token, a rule and a punctuation literal whose names differ only in case / spelling, under the same operator
+    for op in ops:
+        add([('start', ('cat', [(op, ('t', 'TK')), (op, ('n', 'tk'))])), ('tk', ('cat', [a, b]))], 'name-clash')
+        add([('start', ('cat', [(op, ('n', 'xy')), b, (op, ('t', 'XY'))])), ('xy', ('alt', [a, ('cat', [b, a])]))], 'name-clash')
+        add([('start', ('cat', [(op, ('t', 'STAR')), (op, ('t', '*'))]))], 'name-clash')
+        add([('start', ('cat', [(op, ('t', 'PLUS')), a, (op, ('t', '+'))]))], 'name-clash')
     rnd = random.Random(seed)
 
     def rtree(d):
